@@ -8,6 +8,7 @@ import (
 	"fmt"
 	"google.golang.org/protobuf/proto"
 	"google.golang.org/protobuf/reflect/protoreflect"
+	"google.golang.org/protobuf/types/known/anypb"
 	"google.golang.org/protobuf/types/known/wrapperspb"
 	"io"
 	"net/http"
@@ -412,6 +413,8 @@ func streamConc(c *Ctx) {
 	codecMemoryProbe(c)
 	sharedEndErrorProbe(c)
 	constructionErrorProbe(c)
+	errorDetailBleedProbe(c)
+	requestAcrossClientsProbe(c)
 	sharedContextErrorProbe(c)
 	negotiationPerCallProbe(c)
 	sharedDecodeTargetProbe(c)
@@ -487,6 +490,101 @@ func codecMemoryProbe(c *Ctx) {
 			if got != "intact" {
 				c.Fail("conc-codec-memory-reused", desc, got, "memory returned by Codec.Marshal is not the library's to recycle: the caller's message must stay intact")
 			}
+		}
+	}
+}
+
+// errorDetailBleedProbe (C13, oracle only): the details of one call's error never show up in
+// another call's: calls that fail with a coded error carrying details, and calls that fail with
+// a plain error, interleaved and concurrent, each get their own - a plain error has no details
+// (round 11, C13-mo: a pooled Status message whose details were only overwritten by coded errors).
+func errorDetailBleedProbe(c *Ctx) {
+	for _, proto := range []string{"connect", "grpc", "grpcweb"} {
+		h := connect.NewUnaryHandler("/s/m", func(ctx context.Context, r *connect.Request[[]byte]) (*connect.Response[[]byte], error) {
+			if len(*r.Msg) > 0 && (*r.Msg)[0] == 1 {
+				e := connect.NewError(connect.CodeResourceExhausted, errors.New("quota"))
+				d, _ := anypb.New(wrapperspb.String("detail of a coded error"))
+				e.AddDetail(d)
+				return nil, e
+			}
+			return nil, errors.New("plain failure")
+		}, connect.WithCodec(rawCodec{"raw"}))
+		desc := proto + ": calls failing with a coded error that has a detail, and calls failing with a plain error, 4 goroutines x 40 calls"
+		c.Begin(desc)
+		c.Count("error-detail-bleed-probe")
+		got := safely(func() string {
+			var bad int32
+			var wg sync.WaitGroup
+			for g := 0; g < 4; g++ {
+				wg.Add(1)
+				go func(g int) {
+					defer wg.Done()
+					// (the in-process transport keeps notes per call: one per goroutine; the handler
+					// is what the calls share)
+					cl := connect.NewClient[[]byte, []byte](&inprocClient{h: h}, "http://h/s/m", protoOpts(proto)...)
+					for i := 0; i < 40; i++ {
+						coded := (i+g)%2 == 0
+						msg := []byte{0}
+						if coded {
+							msg = []byte{1}
+						}
+						_, err := cl.CallUnary(context.Background(), connect.NewRequest(&msg))
+						var ce *connect.Error
+						if !errors.As(err, &ce) {
+							atomic.AddInt32(&bad, 1)
+							continue
+						}
+						if coded && (ce.Code() != connect.CodeResourceExhausted || len(ce.Details()) != 1) {
+							atomic.AddInt32(&bad, 1)
+						}
+						if !coded && (ce.Code() != connect.CodeUnknown || len(ce.Details()) != 0) {
+							atomic.AddInt32(&bad, 1)
+						}
+					}
+				}(g)
+			}
+			wg.Wait()
+			return fmt.Sprintf("%d of 160 calls got an error that is not their own", atomic.LoadInt32(&bad))
+		})
+		if got != "0 of 160 calls got an error that is not their own" {
+			c.Fail("conc-error-detail-bleed", desc, got, "each call's error is what the same call would produce alone")
+		}
+	}
+}
+
+// requestAcrossClientsProbe (C13, oracle only): one Request value sent through a client that
+// compresses and then through one that does not: the second call's result is what that call
+// would produce alone (round 11, C13-mp: a Content-Encoding left on the caller's header map by
+// the first client, over the second client's uncompressed body).
+func requestAcrossClientsProbe(c *Ctx) {
+	h := connect.NewUnaryHandler("/s/m", func(ctx context.Context, r *connect.Request[[]byte]) (*connect.Response[[]byte], error) {
+		out := append([]byte{byte(len(*r.Msg))}, (*r.Msg)...)
+		return connect.NewResponse(&out), nil
+	}, connect.WithCodec(rawCodec{"raw"}))
+	for _, proto := range []string{"connect", "grpc", "grpcweb"} {
+		desc := proto + ": one Request sent through a client with WithSendGzip and then through a client without send compression"
+		c.Begin(desc)
+		c.Count("request-across-clients-probe")
+		got := safely(func() string {
+			base := append(protoOpts(proto), connect.WithCodec(rawCodec{"raw"}))
+			zipping := connect.NewClient[[]byte, []byte](&inprocClient{h: h}, "http://h/s/m", append(append([]connect.ClientOption{}, base...), connect.WithSendGzip())...)
+			plain := connect.NewClient[[]byte, []byte](&inprocClient{h: h}, "http://h/s/m", base...)
+			msg := bytes.Repeat([]byte{7}, 300)
+			req := connect.NewRequest(&msg)
+			if _, err := zipping.CallUnary(context.Background(), req); err != nil {
+				return "first call: " + err.Error()
+			}
+			res, err := plain.CallUnary(context.Background(), req)
+			if err != nil {
+				return "second call: " + err.Error()
+			}
+			if len(*res.Msg) != 301 {
+				return fmt.Sprintf("second call answered %d bytes", len(*res.Msg))
+			}
+			return "ok"
+		})
+		if got != "ok" {
+			c.Fail("conc-request-across-clients", desc, got, "each call's result is what the same call would produce alone")
 		}
 	}
 }
